@@ -137,13 +137,8 @@ pub fn rec_sigtable(a: &Args, out: &mut Out) {
                         let cell = v.field("data_segment").and_then(|d| d.field("signal_data")).and_then(|s| s.as_seq().cloned()).and_then(|s| s.get(0).cloned());
                         match (m.number(), cell) {
                             (Some(_), Some(c)) => {
-                                let sg = c.field("signal_id").cloned();
-                                match sg {
-                                    Some(crate::value::V::TupleStruct(_, xs)) => {
-                                        let b = xs[0].as_i128().unwrap_or(-1);
-                                        let a = if let crate::value::V::Char(ch) = xs[1] { ch as i64 } else { -1 };
-                                        json!([p, b, a])
-                                    }
+                                match c.field("signal_id").map(sig_of) {
+                                    Some((b, a)) if b >= 0 => json!([p, b, a]),
                                     _ => json!([p, -2, -2]),
                                 }
                             }
